@@ -286,14 +286,20 @@ def crash_family(res, ctx, tag, kinds, n_quick, n_thorough, io_mix=(0, 0, 0, 0, 
             ops, cfg = crashcheck.workload(rng, io=io, kind=kind, nsteps=nsteps)
         items.append((i, kind, io, ops, cfg))
     froms = {}
+    if ctx.quick:
+        # quick tier: a memory-mapped workload is crashed only during its second half (seconds per image)
+        for (i, kind, io, ops, cfg) in items:
+            if io == 1:
+                froms[i] = len(ops) // 2
     if tag == "C03":
         # directed: a power failure persists the first part of a large record whose bytes decode as SHORT chunks (0x01...: length 257);
         # recovery cuts it away; a short write follows; then a second crash without Close.  Whatever recovery cut away logically must
         # not resurface behind the new record (memory-mapped files are pre-extended: the stale bytes are still in the file).
         for io in (1, 0):
             cfg = {"fs": 65536, "sync": 0, "bps": 0, "idx": 1, "io": io, "shards": 4}
-            ops = [engine.open_line("d", cfg), "put 6b31 x11", "sync", "put 6b32 x" + "01" * 4000, "close"]
-            froms[len(items)] = 3
+            # (crash points: only the I/O events of the last, tiny Put - the large record in front of it is the unsynced tail)
+            ops = [engine.open_line("d", cfg), "put 6b31 x11", "sync", "put 6b32 x" + "01" * 4000, "put 6b33 x33"]
+            froms[len(items)] = 4
             items.append((len(items), "double-crash", io, ops, cfg))
 
     def job(it):
